@@ -31,7 +31,8 @@ def run(ctx):
 def make(rng, xr, exact_dirs=False, nlead=None):
     nf = int(rng.choice([3, 5, 8, 12, 20]))
     f, fm = gen.freq_grid(rng, nf=nf)
-    th, dd, dmeta = gen.dir_grid(rng, nd=int(rng.choice([3, 4, 8, 12, 24, 36])), full=True, exact=exact_dirs)
+    # full-circle grids and sectors (a relabelled sector may wrap through 0/360 inside the grid)
+    th, dd, dmeta = gen.dir_grid(rng, nd=int(rng.choice([3, 4, 8, 12, 24, 36])), full=bool(rng.random() < 0.75), exact=exact_dirs)
     lnames, lsizes = gen.lead_dims(rng, nlead=int(rng.choice([0, 1, 2])) if nlead is None else nlead, maxsize=3)
     cls = str(rng.choice(["multimodal", "multimodal", "smooth", "noise"]))
     A, classes = gen.stack_spectra(rng, f, th, lsizes, cls=cls, distinct=False)
@@ -142,7 +143,9 @@ def pairs(ctx, rng, xr, ops):
         checks.append(("0<=dspr<=81.03", np.all((ds_ >= 0) & (ds_ <= 81.03 * (1 + eps)))))
         swe, sw = get("swe", x.spec.swe), get("sw", x.spec.sw)
         checks.append(("swe real and <=1", np.all(np.isfinite(swe) & (swe <= 1 + eps) & (swe >= 0))))
-        checks.append(("sw real", np.all(np.isfinite(sw) & (sw >= 0))))
+        hsv = get("hs", x.spec.hs)
+        big = hsv >= 0.0011          # sw is documented to be masked below Hs = 0.001 m
+        checks.append(("sw real", np.all(np.isfinite(sw[big]) & (sw[big] >= 0))))
     except Exception as e:
         rec.bad("bounds", bkey, {"raised": repr(e)[:300]}, "raises-on-nondegenerate-spectrum")
         return
@@ -198,7 +201,8 @@ def scaled_equal(name, v0, v1, fac, f32, circ):
             m = np.isfinite(v0) & np.isfinite(v1) & (v0 > floor) & (v1 > floor * (fac if fac != 1 else 1))
         if not m.any():
             return None, "cancellation"
-        rt = 5e-3 if f32 else 1e-6
+        from vf.compare import cancel_rtol
+        rt = cancel_rtol(name, v0[m], f32) if name != "gw" else (5e-3 if f32 else 1e-6)
         return bool(np.all(np.abs(v1[m] - fac * v0[m]) <= rt * np.abs(fac * v0[m]))), None
     if not np.array_equal(np.isnan(v0), np.isnan(v1)):
         return False, "nan pattern"
